@@ -1,1 +1,64 @@
 // Kani contract harnesses for /repo/parquet/src/encodings/decoding/byte_stream_split_decoder.rs (child module: sees private items via super::)
+//
+// Inverse of the layout contract in encoding/byte_stream_split_encoder.rs: encoded[i + j*n] = plain[i*T + j].
+use super::*;
+
+// Contract (C05): join_streams_const::<T>(src, dst, stride, values_decoded) with len(src) = stride*T, dst a window of K
+// values (len(dst) = K*T) starting at value index `values_decoded` (values_decoded + K <= stride, the reader's
+// invariant): for all i < K, j < T: dst[i*T + j] = src[(values_decoded + i) + j*stride]; every byte of dst is written.
+// join_streams_variable with type_size = T writes the same bytes. Decoding is thereby the inverse of split_streams:
+// with src = split(plain) one gets dst[i*T + j] = plain[(values_decoded + i)*T + j].
+macro_rules! join_const_unit {
+    ($name:ident, $t:expr, $n:expr, $unw:expr) => {
+        #[kani::proof]
+        #[kani::unwind($unw)]
+        fn $name() {
+            let src: [u8; $t * $n] = kani::any();
+            let vd: usize = kani::any(); let k: usize = kani::any();
+            kani::assume(vd <= $n && k <= $n - vd);
+            let mut out = [0u8; $t * $n];
+            join_streams_const::<$t>(&src, &mut out[..k * $t], $n, vd);
+            let (i, j): (usize, usize) = (kani::any(), kani::any());
+            kani::assume(i < k && j < $t);
+            assert!(out[i * $t + j] == src[vd + i + j * $n]);
+            let mut out2 = [0u8; $t * $n];
+            join_streams_variable(&src, &mut out2[..k * $t], $n, $t, vd);
+            assert!(out2[i * $t + j] == out[i * $t + j]);          // (i, j) ranges over every written byte
+            let z: usize = kani::any();
+            if z >= k * $t && z < $t * $n { assert!(out[z] == 0 && out2[z] == 0); }                     // frame: nothing beyond the window
+            kani::cover!(vd == 1 && k == $n - 1 && i == k - 1 && j == $t - 1);
+            kani::cover!(vd == 0 && k == $n);
+        }
+    };
+}
+// @unit name=join_streams_const4_n3 props=C05 kind=bounded bound=3_values_of_4_bytes_any_window fns=join_streams_const,join_streams_variable timeout=300
+join_const_unit!(join_streams_const4_n3, 4, 3, 10);
+// @unit name=join_streams_const8_n3 props=C05 kind=bounded bound=3_values_of_8_bytes_any_window fns=join_streams_const,join_streams_variable timeout=300
+join_const_unit!(join_streams_const8_n3, 8, 3, 10);
+// @unit name=join_streams_const4_n8 props=C05 kind=bounded bound=8_values_of_4_bytes_any_window fns=join_streams_const,join_streams_variable tier=thorough timeout=900
+join_const_unit!(join_streams_const4_n8, 4, 8, 10);
+// @unit name=join_streams_const8_n8 props=C05 kind=bounded bound=8_values_of_8_bytes_any_window fns=join_streams_const,join_streams_variable tier=thorough timeout=900
+join_const_unit!(join_streams_const8_n8, 8, 8, 10);
+
+// Contract (C05): join_streams_variable for widths 5 and 16 (FIXED_LEN_BYTE_ARRAY): same formula.
+macro_rules! join_var_unit {
+    ($name:ident, $w:expr, $n:expr, $unw:expr) => {
+        #[kani::proof]
+        #[kani::unwind($unw)]
+        fn $name() {
+            let src: [u8; $w * $n] = kani::any();
+            let vd: usize = kani::any(); let k: usize = kani::any();
+            kani::assume(vd <= $n && k <= $n - vd);
+            let mut out = [0u8; $w * $n];
+            join_streams_variable(&src, &mut out[..k * $w], $n, $w, vd);
+            let (i, j): (usize, usize) = (kani::any(), kani::any());
+            kani::assume(i < k && j < $w);
+            assert!(out[i * $w + j] == src[vd + i + j * $n]);
+            kani::cover!(vd == 1 && k == $n - 1 && i == k - 1 && j == $w - 1);
+        }
+    };
+}
+// @unit name=join_streams_variable_w5_n3 props=C05 kind=bounded bound=3_values_of_5_bytes_any_window fns=join_streams_variable timeout=300
+join_var_unit!(join_streams_variable_w5_n3, 5, 3, 8);
+// @unit name=join_streams_variable_w16_n2 props=C05 kind=bounded bound=2_values_of_16_bytes_any_window fns=join_streams_variable timeout=300 tier=thorough
+join_var_unit!(join_streams_variable_w16_n2, 16, 2, 18);
